@@ -32,6 +32,10 @@ func entryDigest(e bentry) *remoteexecution.Digest {
 	switch e.Kind {
 	case "wrong-size":
 		return protoDigest(h, int64(len(content))+1)
+	case "wrong-hash":
+		// a well-formed digest of the right size whose hash is that of other content (for the empty object:
+		// <some hash>/0 with no data at all - nothing to read does not mean nothing to verify)
+		return protoDigest(hashOf(append(append([]byte(nil), content...), '!')), int64(len(content)))
 	case "nonhex":
 		return protoDigest("g"+h[1:], int64(len(content)))
 	case "shorthash":
@@ -53,7 +57,7 @@ type bucase struct {
 	FaultAt  int      `json:"put_call_failing"` // -1: none
 }
 
-var updateKinds = []string{"valid", "wrong-data", "wrong-size", "short-data", "nonhex", "shorthash", "nil"}
+var updateKinds = []string{"valid", "wrong-data", "wrong-hash", "wrong-size", "short-data", "nonhex", "shorthash", "nil"}
 
 func entryData(e bentry) []byte {
 	content := batchObjects[e.Obj]
@@ -170,7 +174,7 @@ func runBatchUpdate(c *bucase) (msg, sig, outcome string) {
 }
 
 func batchUpdateSub(r *ev.Run, name string) {
-	sub := r.NewSub(name, "venum", "BatchUpdateBlobs: every request list of <=3 entries over 3 objects x {valid, wrong data, digest size+1, data too short, non-hex hash, short hash, nil digest} x digest_function {UNKNOWN,SHA256} x instance {\"i/j\",\"\"} x failing backend Put call {none,0,1}")
+	sub := r.NewSub(name, "venum", "BatchUpdateBlobs: every request list of <=3 entries over 3 objects x {valid, wrong data, hash of other content, digest size+1, data too short, non-hex hash, short hash, nil digest} x digest_function {UNKNOWN,SHA256} x instance {\"i/j\",\"\"} x failing backend Put call {none,0,1}")
 	done := sub.Timer()
 	var alphabet []bentry
 	for o := range batchObjects {
